@@ -51,9 +51,17 @@ let outcome_name = function
   | Complete -> "Complete" | Rejected -> "Rejected" | Cut -> "Cut" | Overrun -> "Overrun"
 
 let toks_of (s : string) : tok list =
-  List.init (String.length s) (fun i ->
-      match s.[i] with
-      | '(' -> TLp | ')' -> TRp | '+' -> TOp | _ -> TVal)
+  (* `(`, `)`, `+` are tokens; a run of other characters is one terminal (the number 11) *)
+  let n = String.length s in
+  let rec go i in_val acc =
+    if i >= n then List.rev acc
+    else match s.[i] with
+      | '(' -> go (i + 1) false (TLp :: acc)
+      | ')' -> go (i + 1) false (TRp :: acc)
+      | '+' -> go (i + 1) false (TOp :: acc)
+      | ' ' -> go (i + 1) false acc
+      | _ -> if in_val then go (i + 1) true acc else go (i + 1) true (TVal :: acc) in
+  go 0 false []
 
 let quantum_of = function
   | "days" -> Days | "weeks" -> Weeks | "months" -> Months | "quarters" -> Quarters
